@@ -199,7 +199,7 @@ class Result:
     pass
 
 
-def run_xcp(root, argv, cwd=None, plan=None, umask=0o022, timeout=120, trace=True, env_extra=None, binary=None, tag='t'):
+def run_xcp(root, argv, cwd=None, plan=None, umask=0o022, timeout=120, trace=True, env_extra=None, binary=None, tag='t', nofile=None):
     """Runs xcp with argv (list of str/bytes). With plan/trace, under sup. Returns Result(exit, cls, stderr, trace, final)."""
     r = Result()
     binary = binary or core.XCP
@@ -221,6 +221,9 @@ def run_xcp(root, argv, cwd=None, plan=None, umask=0o022, timeout=120, trace=Tru
 
     def pre():
         os.umask(umask)
+        if nofile:
+            import resource
+            resource.setrlimit(resource.RLIMIT_NOFILE, (nofile, nofile))
     try:
         p = subprocess.run(cmd, cwd=cwd, env=env, stdout=subprocess.PIPE, stderr=subprocess.PIPE, timeout=timeout + 30, preexec_fn=pre)
         r.stderr = p.stderr.decode('utf-8', 'replace')[-4000:]
